@@ -1,7 +1,9 @@
 #!/bin/sh
 # usage: tools/merge_branch.sh <branch> "<message>"  — merges an agent branch, resolving the standard generated-file conflicts
 cd /verif || exit 1
-git merge --no-ff "$1" -m "$2" >/dev/null 2>&1
+if [ -n "$(git status --porcelain)" ]; then echo "working tree not clean: commit or checkout first"; exit 1; fi
+git merge --no-ff "$1" -m "$2" >/tmp/merge_out.$$ 2>&1
+if ! git merge-base --is-ancestor "$1" HEAD 2>/dev/null && ! [ -f .git/MERGE_HEAD ]; then cat /tmp/merge_out.$$; echo "merge did not start"; exit 1; fi
 git rm -q --cached lean/Driver/Main.lean 2>/dev/null; rm -f lean/Driver/Main.lean
 for f in evidence/C*.json MANIFEST.json lean/lakefile.toml DESIGN.md; do
   if git status --short "$f" | grep -q "^[UAD][UAD]"; then git checkout --ours "$f" 2>/dev/null; git add "$f"; fi
